@@ -74,6 +74,9 @@ type Case struct {
 	Policy *ir.Policy   `json:"policy"`
 	Strict bool         `json:"strict"`
 	World  gen.World    `json:"world"`
+	// Before: policies the same Validator object validated before this one (a Validator is made once per schema and
+	// reused by its callers); empty = fresh validator
+	Before []*ir.Policy `json:"before,omitempty"`
 }
 
 const forbidden = ref.EType | ref.ENoFunc | ref.EArity | ref.EAttr | ref.ETag
@@ -274,6 +277,13 @@ func check(c *Case) outcome {
 		return outcome{status: "broken", detail: "schema does not resolve: " + err.Error()}
 	}
 	ok, _ := accepts("replay", c, r, c.Policy, c.Strict)
+	if !ok && len(c.Before) > 0 {
+		v := validator(r, c.Strict)
+		for _, b := range c.Before {
+			_ = v.Policy("before", conv.ToXPolicy(b))
+		}
+		ok = v.Policy("p", conv.ToXPolicy(c.Policy)) == nil
+	}
 	if !ok {
 		return outcome{status: "rejected"}
 	}
@@ -377,6 +387,8 @@ func TestSoundness(t *testing.T) {
 		}
 		schemaHash := ir.Hash(s)
 		pathCache := map[int][]ppath{}
+		reused := map[bool]*validate.Validator{true: validator(r, true), false: validator(r, false)}
+		before := map[bool][]*ir.Policy{}
 		for i := 0; i < nPolicies; i++ {
 			ei := rapid.IntRange(0, len(envs)-1).Draw(rt, "targetenv")
 			env := envs[ei]
@@ -395,6 +407,15 @@ func TestSoundness(t *testing.T) {
 					continue
 				}
 				ok, verr := accepts("soundness", c, r, p, strict)
+				// the same policy through the validator object that has already validated the earlier policies of this
+				// schema: what it accepts counts as accepted too
+				lerr := reused[strict].Policy("p", conv.ToXPolicy(p))
+				if !ok && lerr == nil {
+					ok = true
+					c.Before = append([]*ir.Policy{}, before[strict]...)
+					ev.R.Label("accepted-only-by-a-reused-validator:"+mode, 1)
+				}
+				before[strict] = append(before[strict], p)
 				ev.R.Label("generated:"+mode, 1)
 				if !ok {
 					ev.R.Case(caseHash, false, "rejected:"+mode)
